@@ -1,17 +1,20 @@
 (* Fs.v — layer F: the file system as far as `iwe normalize` is concerned.
 
    * directory tree of the library, the loader `liwe::fs::new_for_path_rec` / `read_file` /
-     `to_file_name` (crates/liwe/src/fs.rs:24-58,66-91): which files are read and under which key;
+     `to_file_name` (crates/liwe/src/fs.rs:55-88,97-122): which files are read and under which key;
    * the file system as an association list path -> bytes, the operations a write is made of
      (open-truncate / append* / close / rename / unlink) and their effect;
    * `std::fs::write p b` = OpenTrunc p; Append p c1; ...; Close p for any chunking of b;
-   * `normalize_ops`: the write sequence of `write_store_at_path (export ..)` (fs.rs:10-12,59-64,
+   * `normalize_ops`: the write sequence of `write_store_at_path (export ..)` (fs.rs:11-43,90-95,
      crates/iwe/src/main.rs:166-194) over the loaded keys in any key order, in two variants:
-     as found (`fs::write` on the note itself) and repaired (write `<note>.tmp`, then rename).
+     as found (`fs::write` on the note itself) and repaired (create a temporary sibling that does
+     not exist yet — the first free name among `<note>.tmp`, `<note>.1.tmp`, `<note>.2.tmp`, … —
+     write it, then rename it over the note).  The repaired sequence depends on the content of
+     the directory: it is a function of the file system it starts from.
    The content written for a key is an abstract function `export : key -> bytes` (the export is
    modelled in Library.v/Project.v; here only *where* and *how* it is written matters).
    No proofs in this file (FsFacts.v). *)
-From IweV Require Import Str RelPath.
+From IweV Require Import Str Text RelPath.
 Local Open Scope string_scope.
 Local Open Scope list_scope.
 
@@ -25,7 +28,7 @@ Inductive node :=
 | Dir (name : string) (children : list node).
 
 (* Rust `str::from_utf8(..).is_ok()` (RFC 3629: no overlong forms, no surrogates, <= U+10FFFF);
-   `fs::read_to_string(path).ok()` drops a file whose bytes are not UTF-8 (fs.rs:78,82). *)
+   `fs::read_to_string(path).ok()` drops a file whose bytes are not UTF-8 (fs.rs:109,113). *)
 Definition byte_in (lo hi : N) (a : ascii) : bool :=
   let n := N_of_ascii a in andb (N.leb lo n) (N.leb n hi).
 Definition cont (a : ascii) : bool := byte_in 128 191 a.
@@ -56,16 +59,16 @@ Fixpoint utf8_valid (s : string) : bool :=
       else false
   end.
 
-(* `path.extension().map_or(false, |ex| ex.eq("md"))` (fs.rs:34).  `Path::extension` is the
+(* `path.extension().map_or(false, |ex| ex.eq("md"))` (fs.rs:65).  `Path::extension` is the
    text after the last `.` of the file name provided the text before it is not empty: so the
    name ends in `.md` and is not exactly `.md`. *)
 Definition has_md_ext (name : string) : bool :=
   ends_with MD name && negb (String.eqb name MD).
 
-(* `to_file_name` (fs.rs:88-91): `name.trim_end_matches(".md")` — *every* trailing `.md` *)
+(* `to_file_name` (fs.rs:119-122): `name.trim_end_matches(".md")` — *every* trailing `.md` *)
 Definition stem (name : string) : string := trim_end_matches MD name.
 
-(* `read_file` (fs.rs:75-85): `sub.join("/")`, then `stem` or `sub/stem` *)
+(* `read_file` (fs.rs:97-117): `sub.join("/")`, then `stem` or `sub/stem` *)
 Definition key_of (sub : list string) (name : string) : string :=
   let sp := join SEPS sub in
   if sempty sp then stem name else sp +++ SEPS +++ stem name.
@@ -75,7 +78,7 @@ Definition path_of (sub : list string) (name : string) : path := join SEPS (sub 
 
 Record loaded := Loaded { l_key : string; l_path : path; l_content : bytes }.
 
-(* `new_for_path_rec` (fs.rs:24-57): in every directory, the regular files with extension `md`
+(* `new_for_path_rec` (fs.rs:55-88): in every directory, the regular files with extension `md`
    whose content is UTF-8, then every sub-directory (hidden ones included: the only filter is
    `is_dir`) with its name pushed on `sub_path`.  The result is collected into a HashMap, so
    only the set of (key, content) pairs is observable; when two files of one directory have the
@@ -137,6 +140,8 @@ Definition set (p : path) (b : bytes) (s : fs) : fs := (p, b) :: remove p s.
 
 Inductive op :=
 | OpenTrunc (p : path)            (* open(p, O_WRONLY|O_CREAT|O_TRUNC) *)
+| OpenNew (p : path)              (* open(p, O_WRONLY|O_CREAT|O_EXCL): creates p empty; when p exists
+                                     the call returns EEXIST and nothing changes *)
 | Append (p : path) (c : bytes)   (* one successful write(2) of c on the descriptor opened on p *)
 | Sync (p : path)                 (* fsync: no effect on the contents *)
 | Close (p : path)
@@ -149,6 +154,7 @@ Inductive op :=
 Definition apply_op (s : fs) (o : op) : fs :=
   match o with
   | OpenTrunc p => set p "" s
+  | OpenNew p => match lookup p s with None => set p "" s | Some _ => s end
   | Append p c => match lookup p s with Some b => set p (b +++ c) s | None => s end
   | Sync _ | Close _ | Other _ => s
   | Rename p q => match lookup p s with Some b => set q b (remove p s) | None => s end
@@ -164,31 +170,61 @@ Fixpoint sconcat (l : list bytes) : bytes :=
 Definition write_ops (p : path) (chunks : list bytes) : list op :=
   OpenTrunc p :: map (Append p) chunks ++ [Close p].
 
-(* `to.join(format!("{}.md", key))` relative to `to` (fs.rs:11) *)
+(* `to.join(format!("{}.md", key))` relative to `to` (fs.rs:12) *)
 Definition note_path (k : string) : path := to_path k.
 
-(* the temporary sibling of the repaired `write_file` *)
+(* the temporary sibling of the repaired `write_file`: `create_temp_file` (fs.rs:30-43) tries
+   `<key>.md.tmp`, then `<key>.md.1.tmp`, `<key>.md.2.tmp`, … (`format!("{}.md.{}.tmp", key, n)`,
+   n in decimal) with `OpenOptions::new().write(true).create_new(true)`, and takes the first name
+   for which the open does not answer `AlreadyExists`.  (The counter is a u64 in the code and a
+   nat here: a directory with 2^64 entries is outside the model.) *)
 Definition TMP : string := ".tmp".
-Definition tmp_of (p : path) : path := p +++ TMP.
+Definition tmp_cand (p : path) (i : nat) : path :=
+  match i with
+  | O => p +++ TMP
+  | S _ => p +++ "." +++ dec i +++ TMP
+  end.
+
+(* the loop of `create_temp_file`: the index of the first candidate that does not exist.  The
+   loop has no bound in the code; here the fuel is the number of files, which always suffices
+   (FsFacts.tmp_index_spec: the result is free and every smaller candidate exists). *)
+Fixpoint first_free (p : path) (s : fs) (fuel i : nat) : nat :=
+  match fuel with
+  | O => i
+  | S f => match lookup (tmp_cand p i) s with None => i | Some _ => first_free p s f (S i) end
+  end.
+Definition tmp_index (s : fs) (p : path) : nat := first_free p s (length s) 0.
+Definition tmp_of (s : fs) (p : path) : path := tmp_cand p (tmp_index s p).
+
+(* the opens `create_temp_file` makes for target p in state s: one per existing candidate
+   (each answers EEXIST), then the one that creates the temporary file *)
+Definition create_ops (s : fs) (p : path) : list op :=
+  map (fun i => OpenNew (tmp_cand p i)) (seq 0 (S (tmp_index s p))).
 
 Inductive variant := AsFound | Repaired.
 
 Section Normalize.
-  (* the bytes `Graph::export` holds for a key, and how `write_all` happens to split them *)
-  Variable export : string -> bytes.
+  (* how `write_all` happens to split the bytes `Graph::export` holds for a key *)
   Variable chunks : string -> list bytes.
 
-  Definition file_ops (v : variant) (k : string) : list op :=
+  (* `write_file` (fs.rs:11-24) for key k when the file system is s.  Repaired: create the
+     temporary file, `write_all`, close (`drop(file)`), rename over the note. *)
+  Definition file_ops (v : variant) (s : fs) (k : string) : list op :=
     match v with
     | AsFound => write_ops (note_path k) (chunks k)
     | Repaired =>
-        write_ops (tmp_of (note_path k)) (chunks k) ++ [Rename (tmp_of (note_path k)) (note_path k)]
+        let t := tmp_of s (note_path k) in
+        create_ops s (note_path k) ++ map (Append t) (chunks k) ++ [Close t; Rename t (note_path k)]
     end.
 
-  (* `write_store_at_path` (fs.rs:59-64): one `write_file` per entry of the exported HashMap,
-     in the map's iteration order [order] (any order of the distinct keys) *)
-  Definition normalize_ops (v : variant) (order : list string) : list op :=
-    flat_map (file_ops v) order.
+  (* `write_store_at_path` (fs.rs:90-95): one `write_file` per entry of the exported HashMap,
+     in the map's iteration order [order] (any order of the distinct keys), each on the file
+     system the previous ones left *)
+  Fixpoint normalize_ops (v : variant) (order : list string) (s : fs) : list op :=
+    match order with
+    | [] => []
+    | k :: r => let g := file_ops v s k in g ++ normalize_ops v r (run_ops g s)
+    end.
 End Normalize.
 
 (* `Graph::import` re-derives each key with `Key::from_file_name` (graph.rs:301) and `export`
@@ -200,8 +236,3 @@ Fixpoint dedup (l : list string) : list string :=
   end.
 Definition written_keys (t : list node) : list string :=
   dedup (map (fun l => key_from_file_name (l_key l)) (load t)).
-
-(* classifier: a file of the tree already has the name of a temporary sibling the repaired
-   writer would use (`x.md.tmp` next to `x.md`): it would be overwritten *)
-Definition tmp_clash (t : list node) : bool :=
-  existsb (fun k => existsb (String.eqb (tmp_of (note_path k))) (map fst (files_of t))) (written_keys t).
